@@ -2,6 +2,7 @@ package main
 
 import (
 	"fmt"
+	"go/token"
 	"go/types"
 	"sort"
 	"strings"
@@ -47,6 +48,34 @@ func guardsIn(p *Program, f *ssa.Function) []guardInfo {
 		if !ok {
 			continue
 		}
+		// a branch on a boolean assembled from nil tests ("ok := A != nil && A.B != nil; if !ok { panic }"):
+		// every nil test that is an edge value of the phi guards its pointer when the phi's false side aborts
+		{
+			cond := iff.Cond
+			neg := false
+			for {
+				if u, ok := cond.(*ssa.UnOp); ok && u.Op == token.NOT {
+					cond, neg = u.X, !neg
+					continue
+				}
+				break
+			}
+			if ph, ok := cond.(*ssa.Phi); ok && ph.Block() == b {
+				falseSucc := 1
+				if neg {
+					falseSucc = 0
+				}
+				if abortOnly[b.Succs[falseSucc].Index] || edgeLeadsToAbort(b, falseSucc, abortOnly) {
+					for _, ed := range ph.Edges {
+						if x, nilSucc, ok := nilTest(ed); ok && nilSucc == 1 {
+							if path := wirePathOf(x); path != "" {
+								out = append(out, guardInfo{path: path, block: b, pos: p.Pos(iff.Cond.Pos())})
+							}
+						}
+					}
+				}
+			}
+		}
 		x, nilSucc, ok := nilTest(iff.Cond)
 		if !ok {
 			continue
@@ -55,7 +84,7 @@ func guardsIn(p *Program, f *ssa.Function) []guardInfo {
 		if path == "" {
 			continue
 		}
-		if abortOnly[b.Succs[nilSucc].Index] {
+		if abortOnly[b.Succs[nilSucc].Index] || edgeLeadsToAbort(b, nilSucc, abortOnly) {
 			out = append(out, guardInfo{path: path, block: b, pos: p.Pos(iff.Cond.Pos())})
 		}
 	}
@@ -656,3 +685,54 @@ func checkExhaust(p *Program, r *Report, f *ssa.Function) {
 }
 
 func init() { checks["C04"] = checkC04 }
+
+// edgeLeadsToAbort: the edge b -> b.Succs[k] reaches only aborting blocks once the boolean phis it feeds
+// are folded ("ok := A != nil && A.B != nil; if ok && C != nil { return }; panic(...)": from the nil edge
+// of the first test, ok is the constant false and the next branch goes to the panic).
+func edgeLeadsToAbort(b *ssa.BasicBlock, k int, abortOnly []bool) bool {
+	pred, cur := b, b.Succs[k]
+	for steps := 0; steps < 6; steps++ {
+		if abortOnly[cur.Index] {
+			return true
+		}
+		iff, ok := lastInstr(cur).(*ssa.If)
+		if !ok {
+			return false
+		}
+		cond := iff.Cond
+		neg := false
+		for {
+			if u, ok := cond.(*ssa.UnOp); ok && u.Op == token.NOT {
+				cond, neg = u.X, !neg
+				continue
+			}
+			break
+		}
+		ph, ok := cond.(*ssa.Phi)
+		if !ok || ph.Block() != cur {
+			return false
+		}
+		idx := -1
+		for i, pp := range cur.Preds {
+			if pp == pred {
+				idx = i
+			}
+		}
+		if idx < 0 {
+			return false
+		}
+		c, ok := constBool(ph.Edges[idx])
+		if !ok {
+			return false
+		}
+		if neg {
+			c = !c
+		}
+		next := cur.Succs[1]
+		if c {
+			next = cur.Succs[0]
+		}
+		pred, cur = cur, next
+	}
+	return false
+}
